@@ -700,6 +700,13 @@ def search_for_paths(logger: ConsolePrinter, processor: EYAMLProcessor,
                 )
                 yield YAMLPath(tmp_path)
 
+    elif search_values and not build_path and data is not None:
+        # A Scalar document:  the root node is its only value
+        matches = Searches.search_matches(method, term, data)
+        if (matches and not invert) or (invert and not matches):
+            yield YAMLPath(
+                strsep if pathsep is PathSeparators.FSLASH else "")
+
 def get_search_term(logger: ConsolePrinter,
                     expression: str) -> Optional[SearchTerms]:
     """
